@@ -24,6 +24,7 @@ class Mod:
         self.funcs = {}       # qualname -> FunctionDef  ("f", "Cls.f", "f.inner")
         self.classes = {}     # name -> ClassDef
         self.globals = {}     # name -> value node (module-level Assign)
+        self.star_imports = []
         self._index()
 
     def _index(self):
@@ -43,6 +44,9 @@ class Mod:
                     parts = parts[: len(parts) - (node.level - 1)]
                     base = ".".join(parts + ([node.module] if node.module else []))
                 for a in node.names:
+                    if a.name == "*":
+                        self.star_imports.append(base)
+                        continue
                     self.imports[a.asname or a.name] = ("from", base, a.name)
 
         for node in ast.walk(self.tree):
